@@ -215,6 +215,9 @@ func c10Drivers() []concParams {
 		// the same with the group already queued behind a transaction: the first journal sync of the
 		// window is the one of a really merged group; its members write again afterwards
 		{Name: "queue-behind-transaction+journal-sync-fault+later-writes", Cfg: "roomy/bytewise", Clients: [][]string{{"trq:+z"}, {"Sw:+a,+b", "Sput:c"}, {"Sw:+b,-a", "Sput:a"}, {"Sput:b"}}, Faults: []faultSpec{{Kind: int(vstor.KSync), Type: int(storage.TypeJournal), Nth: 1, Count: 1, Mode: int(vstor.ModeFail), Name: "sync/journal#1"}}, QB: 2, TB: 3},
+		// the leader's journal write fails while an oversized writer waits to be handed the lock
+		{Name: "overflow-handoff+journal-write-fault#1", Cfg: "wide/bytewise", Clients: [][]string{{"put:a"}, {"putL:b"}, {"put:a"}}, Faults: []faultSpec{{Kind: int(vstor.KWrite), Type: int(storage.TypeJournal), Nth: 1, Count: 1, Mode: int(vstor.ModeFail), Name: "write/journal#1"}}, QB: 2, TB: 3},
+		{Name: "queue-behind-transaction-huge+journal-write-fault#1", Cfg: "roomy/bytewise", Clients: [][]string{{"trq:+z"}, {"put:a"}, {"put:b"}, {"putH:b"}, {"w:+a,+b", "get:a"}}, Faults: []faultSpec{{Kind: int(vstor.KWrite), Type: int(storage.TypeJournal), Nth: 1, Count: 1, Mode: int(vstor.ModeFail), Name: "write/journal#1"}}, QB: 1, TB: 2},
 		{Name: "merged-group-fills-buffer+journal-create-fault", Cfg: "wide/bytewise", Pre: []string{"putM:a", "putE:b"}, Clients: [][]string{{"put:a"}, {"put:b"}, {"put:a"}}, Faults: []faultSpec{{Kind: int(vstor.KCreate), Type: int(storage.TypeJournal), Nth: 1, Count: 1, Mode: int(vstor.ModeFail), Name: "create/journal#1"}}, QB: 2, TB: 3},
 		// writers queue up behind a transaction that holds the write lock until all of them are
 		// parked: when it commits, one becomes leader and finds the others waiting to be merged
